@@ -104,7 +104,8 @@ pub fn run_with(path: PathBuf, src: &str, opts: &Opts) -> Outcome {
     vm_verif::enable(false);
     vm_verif::set_step_limit(0);
     let _ = vm_verif::take();
-    let mut vm = Vm::new(io);
+    // a panic (step limit, host panic) leaves the vm in an arbitrary state: never run its destructors then
+    let mut vm = std::mem::ManuallyDrop::new(Vm::new(io));
     // everything below applies to the program, not to the construction of the standard library
     allocator_verif::set_schedule(schedule, seed);
     allocator_verif::set_force_full(opts2.full);
@@ -115,6 +116,7 @@ pub fn run_with(path: PathBuf, src: &str, opts: &Opts) -> Outcome {
       vm.verif_set_next_gc(usize::MAX);
     }
     let res = if opts2.repl { vm.repl() } else { vm.run(path, &src) };
+    let limit_hit = vm_verif::limit_hit();
     vm_verif::enable(false);
     vm_verif::set_step_limit(0);
     allocator_verif::set_schedule(Schedule::Default, 1);
@@ -138,7 +140,8 @@ pub fn run_with(path: PathBuf, src: &str, opts: &Opts) -> Outcome {
       ex.push(("intern_after_full".to_string(), keys.len().to_string()));
     }
     ex.push(("scheduled_collections".to_string(), allocator_verif::scheduled_collections().to_string()));
-    (res, ex)
+    unsafe { std::mem::ManuallyDrop::drop(&mut vm) };
+    (res, ex, limit_hit)
   }));
   allocator_verif::set_schedule(Schedule::Default, 1);
   allocator_verif::set_force_full(None);
@@ -146,9 +149,13 @@ pub fn run_with(path: PathBuf, src: &str, opts: &Opts) -> Outcome {
   vm_verif::enable(false);
   vm_verif::set_step_limit(0);
   let status = match r {
-    Ok(((code, exit), ex)) => {
+    Ok(((code, exit), ex, limit_hit)) => {
       extra = ex;
-      format!("{:?}:{}", exit, code)
+      if limit_hit {
+        "STEPLIMIT".to_string()
+      } else {
+        format!("{:?}:{}", exit, code)
+      }
     },
     Err(e) => {
       let msg = if let Some(s) = e.downcast_ref::<&str>() {
